@@ -597,7 +597,17 @@ def demod_rule(rep: Report, ci: ClassInfo, fi: FuncInfo, tables: List[str]) -> i
                     continue
         rep.undecided("LABEL", fi, f"{ci.name}: {unparse(r)}", "index of the label-row read not recognised", node=r)
     if not reads:
-        rep.undecided("LABEL", fi, f"{ci.name}: bits read from self.modulator.bit_patterns", "no read found")
+        # the lookup lives elsewhere (a helper method): the hard branch is tabulated at and around the constellation points
+        try:
+            from .c15 import hard_nearest_tabulated
+
+            st_, d_ = hard_nearest_tabulated(REPO_REF[0], ci, fi) if REPO_REF else (None, "repository handle not available")
+        except Exception as exc:
+            st_, d_ = None, f"{type(exc).__name__}: {exc}"
+        if st_ is None:
+            rep.undecided("LABEL", fi, f"{ci.name}: bits read from self.modulator.bit_patterns", f"no read found; tabulation: {d_}")
+        else:
+            rep.add("LABEL", fi, f"{ci.name}: decided bits = label of the nearest point (tabulated)", st_, d_, node=fi.node)
     return n + max(1, good)
 
 
@@ -1058,6 +1068,28 @@ def rule_count(repo: Repo, rep: Report) -> int:
         # divisibility guard
         guards = [s for s in ast.walk(fi.node) if isinstance(s, ast.If) and any(isinstance(x, ast.Raise) for x in s.body) and "%" in unparse(s.test)]
         okg = any(match(g.test, f"bit_len % {bps} != 0") is not None or f"bit_len % {bps} != 0" in unparse(g.test) or f"x.shape[-1] % {bps} != 0" in unparse(g.test) or f"x.size(-1) % {bps} != 0" in unparse(g.test) for g in guards)
+        if not okg:
+            # the same test with the operands named in locals: every local is replaced by its only definition
+            sdefs = {}
+            for s_ in ast.walk(fi.node):
+                if isinstance(s_, ast.Assign) and len(s_.targets) == 1 and isinstance(s_.targets[0], ast.Name):
+                    sdefs.setdefault(s_.targets[0].id, []).append(s_.value)
+
+            class _Res(ast.NodeTransformer):
+                def visit_Name(self, nd):
+                    v_ = sdefs.get(nd.id)
+                    if isinstance(nd.ctx, ast.Load) and v_ is not None and len(v_) == 1 and nd.id not in fi.params:
+                        import copy as _cp
+
+                        return self.visit(_cp.deepcopy(v_[0]))
+                    return nd
+
+            for g in guards:
+                import copy as _cp
+
+                t_ = unparse(_Res().visit(_cp.deepcopy(g.test)))
+                if t_ in (f"x.shape[-1] % {bps} != 0", f"x.size(-1) % {bps} != 0", f"not x.shape[-1] % {bps} == 0", f"x.shape[-1] % {bps}", f"x.shape[-1] % {bps} > 0"):
+                    okg = True
         rep.expect(okg, "COUNT", fi, f"{cname}: `bit_len % {bps} != 0` raises", "no silent truncation or padding of the bit sequence", "divisibility guard not recognised")
         n += 1
     # bits_per_symbol = log2(order)
